@@ -93,9 +93,66 @@ def generate():
         defs.append(f'(* {name}: {t2.src(body[0].value)} with an abstract power function *)\n'
                     f'Definition {dn} (pw : R -> R -> R) (s o : R) : R :=\n  pw {ops_[0]} {ops_[1]}.')
         lemmas.append(f'Lemma {dn}_def : forall (pw : R -> R -> R) (s o : R), {dn} pw s o = {want}.\nProof. intros. reflexivity. Qed.')
+    order_txt = field_order_defs(it, cl)
     txt = (f'(* GENERATED by vlib/c20_ops.py from {SRC} (class JaxDiscreteField) -- do not edit *)\n'
            'From Coq Require Import Ring.\nRequire Import Base.C20_Ring.\nSection Gen.\nContext {R : Type} {ops : FOps R}.\nOpen Scope F_scope.\n\n'
            + '\n'.join(defs) + '\n\n(* each special method is the operator it implements (commutativity of + and * is the only law used) *)\n'
            'Hypothesis Rth : ring_theory f0 f1 fadd fmul fsub fopp (@eq R).\nAdd Ring Rring20o : Rth.\n'
-           + '\n'.join(lemmas) + '\nEnd Gen.\n')
+           + '\n'.join(lemmas) + '\nEnd Gen.\n' + order_txt)
     return txt, present
+
+
+DF_SRC = 'skfem/element/discrete_field.py'
+
+
+def _names(lst):
+    return '[' + '; '.join(f'"{x}"' for x in lst) + ']%string'
+
+
+def field_order_defs(it, jcl):
+    """the order in which the components of a field travel from DiscreteField to JaxDiscreteField:
+    ``JaxDiscreteField(*c.astuple)`` unpacks DiscreteField.astuple (value, then ``_extra_attrs``) POSITIONALLY into
+    JaxDiscreteField.__init__; JaxDiscreteField.astuple / the pytree registration use the same positional convention"""
+    tree = t2.parse(DF_SRC)
+    cl = t2.only([n for n in tree.body if isinstance(n, ast.ClassDef) and n.name == 'DiscreteField'], 'class DiscreteField')
+    extra = None
+    for st in cl.body:
+        if isinstance(st, ast.Assign) and t2.src(st.targets[0]) == '_extra_attrs':
+            try:
+                extra = list(ast.literal_eval(st.value))
+            except (ValueError, SyntaxError):
+                raise TranslateError('DiscreteField._extra_attrs is not a literal tuple')
+    meths = {n.name: n for n in cl.body if isinstance(n, ast.FunctionDef)}
+    if extra is None or '__new__' not in meths or 'astuple' not in meths or 'get' not in meths:
+        raise TranslateError('DiscreteField: _extra_attrs / __new__ / get / astuple')
+    if 'return tuple((self.get(i) for i in range(len(self._extra_attrs) + 1)))' not in t2.src(meths['astuple']):
+        raise TranslateError('DiscreteField.astuple changed')
+    if 'return np.array(self)' not in t2.src(meths['get']) or 'return getattr(self, self._extra_attrs[n - 1])' not in t2.src(meths['get']):
+        raise TranslateError('DiscreteField.get changed')
+    df_astuple = ['value'] + extra
+    df_new = [a.arg for a in meths['__new__'].args.args][1:]
+    jm = {n.name: n for n in jcl.body if isinstance(n, ast.FunctionDef)}
+    jdf_init = [a.arg for a in jm['__init__'].args.args][1:]
+    ret = [st for st in jm['astuple'].body if isinstance(st, ast.Return)]
+    if len(ret) != 1 or not isinstance(ret[0].value, ast.Tuple):
+        raise TranslateError('JaxDiscreteField.astuple is not a tuple literal')
+    jdf_astuple = []
+    for e in ret[0].value.elts:
+        if not (isinstance(e, ast.Attribute) and t2.src(e.value) == 'self'):
+            raise TranslateError('JaxDiscreteField.astuple entry ' + t2.src(e))
+        jdf_astuple.append(e.attr)
+    # every constructor stores each argument under its own name
+    for a in jdf_init:
+        if f'self.{a} = {a}' not in t2.src(jm['__init__']):
+            raise TranslateError(f'JaxDiscreteField.__init__ does not store {a} as self.{a}')
+    for a in df_new[1:]:
+        if f'obj.{a} = {a}' not in t2.src(meths['__new__']):
+            raise TranslateError(f'DiscreteField.__new__ does not store {a} as obj.{a}')
+    return ('\n(* positional order of the field components: DiscreteField.astuple -> JaxDiscreteField( *c.astuple ) *)\n'
+            'From Coq Require Import String List.\nImport ListNotations.\n'
+            f'Definition df_astuple_order : list string := {_names(df_astuple)}.\n'
+            f'Definition df_new_order : list string := {_names(df_new)}.\n'
+            f'Definition jdf_init_order : list string := {_names(jdf_init)}.\n'
+            f'Definition jdf_astuple_order : list string := {_names(jdf_astuple)}.\n'
+            'Lemma field_orders_agree : df_astuple_order = jdf_init_order /\\ jdf_astuple_order = jdf_init_order /\\ '
+            'df_new_order = df_astuple_order.\nProof. repeat split; reflexivity. Qed.\n')
